@@ -4,13 +4,13 @@
 #   copies the deliverables to /verif/seeded/<seed-name>/, applies patch.diff to /repo, builds, runs the full test
 #   suite, runs the demonstration against the patched /repo build, runs the named checks, and always restores /repo.
 name=$1; wt=$2; checks=$3; tier=${4:-quick}
-src=/tmp/wt-$wt/SEED
+src=/tmp/${WTPREFIX:-wt}-$wt/SEED
 dst=/verif/seeded/$name
 mkdir -p $dst
 cp $src/patch.diff $dst/patch.diff
 (cd $src && find . -type f -size -300k -not -path "*/target/*" -not -name "*.log" | while read f; do mkdir -p "$dst/$(dirname "$f")"; cp "$f" "$dst/$f"; done)
 # the demonstration must run from /repo's build
-grep -rlI "/tmp/wt-$wt" $dst | while read f; do sed -i "s#/tmp/wt-$wt/target#/repo/target#g; s#/tmp/wt-$wt/SEED#$dst#g; s#/tmp/wt-$wt#/repo#g" "$f"; done
+grep -rlI "/tmp/${WTPREFIX:-wt}-$wt" $dst | while read f; do sed -i "s#/tmp/${WTPREFIX:-wt}-$wt/target#/repo/target#g; s#/tmp/${WTPREFIX:-wt}-$wt/SEED#$dst#g; s#/tmp/${WTPREFIX:-wt}-$wt#/repo#g" "$f"; done
 cd /repo
 if [ -n "$(git status --porcelain)" ]; then echo "REPO DIRTY - abort"; exit 2; fi
 if ! git apply --check $dst/patch.diff 2>/dev/null; then echo "patch does not apply"; exit 2; fi
